@@ -250,7 +250,58 @@ def run(run: common.Run):
                         break
         run.sample(dict(case={k: case[k] for k in ('i', 'grid', 'nb', 'halvings', 'threads', 'upsampling', 'dup_descr')},
                         model=[{k: str(v) for k, v in m.items()} for m in (model_stats or [])][:1]), 4)
+    if run.only is None:
+        near_identical_leg(run, tmp)
     cli_json(run, tmp)
+
+
+def near_identical_leg(run, tmp):
+    """
+    A source and reference that agree closely relative to their magnitude (16-bit digital numbers around 5000 and 40000 differing by a
+    few counts; reflectances differing by 1e-4): RMSE and rRMSE must still be the root mean square *difference* over the jointly
+    valid pixels and its ratio to the reference mean - a value reconstructed from sums of squares in single precision is not.  Same
+    grid for both images (no resampling: the definition is evaluated with numpy in double precision on the file contents), a nodata
+    area in each, three block partitions.
+    """
+    from homonim import RasterCompare
+    u = 8
+    g = rasters.Grid(u * 5000, u * 9000, 2 * u, 2 * u, 26, 22)
+    for k, (base, spread, noise, scale) in enumerate(((5000, 300, 1, 1.0), (5000, 300, 10, 1.0), (40000, 2000, 3, 1.0), (3000, 500, 1, 1e-4))):
+        rng = run.rng(f'near{k}')
+        s = np.array([[[base + rng.randint(-spread, spread) for _ in range(g.w)] for _ in range(g.h)] for _ in range(2)], float)
+        r = s + np.array([[[rng.randint(-noise, noise) for _ in range(g.w)] for _ in range(g.h)] for _ in range(2)], float)
+        s, r = s * scale, r * scale
+        sv = np.ones((g.h, g.w), bool)
+        rv = np.ones((g.h, g.w), bool)
+        sv[:3, :5] = False
+        rv[-4:, -6:] = False
+        pair = fusion.write_pair(tmp, f'c11near{k}', g, g, s, r, sv, rv)
+        jv = sv & rv
+        for mbm, th in ((100, 1), (2e-3, 2), (5e-4, 1)):
+            case = dict(i=700_000 + 10 * k + int(th) + (0 if mbm == 100 else 3), op='near-identical pair', level=base * scale, noise=noise * scale,
+                        max_block_mem=mbm, threads=th)
+            try:
+                with warnings.catch_warnings():
+                    warnings.simplefilter('ignore')
+                    with RasterCompare(pair.src_path, pair.ref_path) as cmp:
+                        st = cmp.process(threads=th, max_block_mem=mbm)
+            except Exception as ex:
+                from homonim.errors import BlockSizeError
+                if not isinstance(ex, BlockSizeError):
+                    run.fail(case, f'compare raised {type(ex).__name__}: {ex}', signature=dict(kind='raises'))
+                continue
+            run.evaluations += 1
+            run.hist['near-identical pairs'] += 1
+            run.nontrivial.add(('near', k, mbm))
+            rows = [v for kk, v in st.items() if kk != 'Mean']
+            for b, row in enumerate(rows):
+                a32, b32 = s[b].astype('float32').astype('float64')[jv], r[b].astype('float32').astype('float64')[jv]
+                rmse = float(np.sqrt(np.mean((b32 - a32) ** 2)))
+                rr = rmse / float(np.mean(b32))
+                if row['n'] != int(jv.sum()) or not (abs(row['rmse'] - rmse) <= 2e-4 * rmse) or not (abs(row['rrmse'] - rr) <= 2e-4 * abs(rr)):
+                    run.fail(case, f'band {b + 1}: N {row["n"]}, RMSE {row["rmse"]!r}, rRMSE {row["rrmse"]!r}; by definition over the '
+                             f'{int(jv.sum())} jointly valid pixels {rmse!r}, {rr!r}', signature=dict(kind='stat-def', op='near-identical'))
+                    break
 
 
 def cli_json(run, tmp):
